@@ -6,7 +6,7 @@ from vlib import core
 from harness import wsgen, wsrun, wsoracle
 
 PROP = "C01"
-PROOF_MODULES = ["Abverif.Proofs.Lemmas.WsFrame", "Abverif.Proofs.Lemmas.WsExt", "Abverif.Proofs.C01", "Abverif.Proofs.Lemmas.WsSeg", "Abverif.Proofs.Lemmas.WsSeg2", "Abverif.Proofs.Lemmas.WsData", "Abverif.Proofs.WsSegmentation", "Abverif.Proofs.Lemmas.WsJudge", "Abverif.Proofs.Lemmas.WsJudge2", "Abverif.Proofs.WsRefinement", "Abverif.Proofs.Lemmas.WsEncode", "Abverif.Proofs.WsRoundtrip"]
+PROOF_MODULES = ["Abverif.Proofs.Lemmas.WsFrame", "Abverif.Proofs.Lemmas.WsExt", "Abverif.Proofs.C01", "Abverif.Proofs.Lemmas.WsSeg", "Abverif.Proofs.Lemmas.WsSeg2", "Abverif.Proofs.Lemmas.WsData", "Abverif.Proofs.WsSegmentation", "Abverif.Proofs.Lemmas.WsJudge", "Abverif.Proofs.Lemmas.WsJudge2", "Abverif.Proofs.WsRefinement", "Abverif.Proofs.Lemmas.WsEncode", "Abverif.Proofs.WsRoundtrip", "Abverif.Proofs.C05", "Abverif.Proofs.WsReach"]
 MANIFEST_ENTRY = {
     "technique": 'Lean 4 theorems on the send path (length codec, fragmentation, write queue order, mask policy) + model<->code correspondence + RFC judge of the wire',
     "text": 'Proved for all inputs on the model: big-endian/length codec round trip at every boundary (0/125/126/65535/65536/2^63), the sendMessage fragment loop concatenates to the payload with FIN only on the last fragment, write chopping and the send queue never reorder octets (queue_order over any mix of direct/sync/chopped writes), default mask policy. The model (Ws.lean, mirrors sendFrame/sendMessage/streaming API/PreparedMessage/sendData/_send and the receive path) is tied to the code by exact per-operation comparison on real Twisted and asyncio protocol objects; the octets real senders write are judged by the frame-by-frame RFC 6455 Spec in the peer role (well-formed, messages = sent) and delivered under 4 segmentations to real receivers in all 4 framework pairings. Segmentation: segmentation_independent (Proofs/WsSegmentation.lean) proves for the receive model with failByDrop=True that any two cuts of one octet stream into non-empty reads give the same state (or both runs closed with the same history), so what the differential run establishes for the sampled segmentations holds for every one; recv_refines_judge (Proofs/WsRefinement.lean) proves that what the receiving engine delivers for ANY octet stream under ANY segmentation is exactly what the frame-by-frame RFC judge derives from the stream; send_recv_roundtrip (Proofs/WsRoundtrip.lean) closes the loop on the model: whatever list of messages a fresh endpoint sends with sendMessage (text/binary, any length below 2^63, unfragmented or any fragment size, direct or queued writes, masked or not), when its octets reach a fresh receiving engine (failByDrop, no compression) in ANY segmentation, that engine delivers exactly those messages in order and stays OPEN - under the stated conditions SenderOk/MsgOk (masking agreed, limits of both sides respected, text valid UTF-8 when the receiver validates, fragment size not 0); ingredients: judgeStep_encodeFrame (the judge reads back what encodeFrame writes: header bits, all three length encodings via lenCodec_roundtrip, key, masking via C15 involutive), frame_run / sendFrags_run (fragment sequences incl. incremental UTF-8), sendMessage_judged, recv_refines_judge. Also proved: sendPrepared_judged (prepared messages) and stream_judged (beginMessage, any non-empty sequence of sendMessageFrame, endMessage: judged as exactly one message, the concatenation of the frame payloads; with zero frames endMessage writes a lone continuation frame - a protocol violation, which is why the theorem needs a non-empty sequence). Compression end-to-end is tied by the differential runs only (codec laws in C12).',
